@@ -211,6 +211,13 @@ def drain_predicate(c, f):
     return bad
 
 
+def generate(ctx=None):
+    """Translator: coq/Gen/Skeleton.v (call and access facts with must-hold locksets) from
+    /repo's current source; the property file carries the obligation Cxx_skeleton_assumptions."""
+    from checks import c10
+    return c10.generate(ctx)
+
+
 def setup():
     L.go_build("c11")
     L.ocaml_build("c11")
@@ -350,6 +357,8 @@ def conn_cut_cases(ctx):
 
 def search(ctx, violations):
     """A layer broke without a concrete input: the thorough enumeration is the search."""
+    from checks import c10
+    c10.annotate_skeleton_failure(ctx, violations, "SkeletonConn", "conn_assumptions", "Model/ConnMux.v / ConnOps.v", "conn.go / batch.go")
     ctx.seed += 1000
     ctx.tier = "thorough"
     ctx.thorough = True
